@@ -72,6 +72,7 @@
 //! # }
 //! ```
 
+use crate::node::SharedNode;
 use crate::active_request::RequestId;
 use crate::port::details::chunk::ChunkMut;
 use crate::port::details::data_segment_shared_state::DataSegmentSharedState;
@@ -190,6 +191,9 @@ pub struct ClientSharedState<Service: service::Service> {
     // Otherwise the process might crash during cleanup, has already removed the tag but other resources
     // are still existing. This would make a cleanup from another process impossible.
     port_tag: Service::StaticStorage,
+    // Keeps the node alive until the port tag is removed. If the port is the last owner of the
+    // node, the node could otherwise not remove its directory since it still contains the tag.
+    _shared_node: SharedNode<Service>,
 }
 
 impl<Service: service::Service> DataSegmentSharedState for ClientSharedState<Service> {
@@ -241,6 +245,7 @@ impl<Service: service::Service> Abandonable for ClientSharedState<Service> {
         unsafe { Sender::abandon_in_place(NonNull::from_mut(&mut this.request_sender)) };
         unsafe { Receiver::abandon_in_place(NonNull::from_mut(&mut this.response_receiver)) };
         unsafe { Service::StaticStorage::abandon_in_place(NonNull::from_mut(&mut this.port_tag)) };
+        unsafe { SharedNode::abandon_in_place(NonNull::from_mut(&mut this._shared_node)) };
     }
 }
 
@@ -468,6 +473,7 @@ impl<
                         "{msg} since the port tag, that is required for cleanup, could not be created. [{e:?}]");
             }
         };
+        let shared_node = service.shared_node().clone();
 
         let static_config = client_factory.factory.static_config();
         let number_of_requests_with_max_service_setting =
@@ -622,6 +628,7 @@ impl<
 
         let client_shared_state = Service::ArcThreadSafetyPolicy::new(ClientSharedState {
             port_tag,
+            _shared_node: shared_node,
             config: client_factory.config,
             client_handle: UnsafeCell::new(None),
             available_channel_ids: {
